@@ -98,10 +98,19 @@ pub fn run(a: &Args, r: &mut Report) {
             (n, _) => n as i64,
         };
         let age_off = g.gen_range(-2..=2i64);
-        let ts = match g.gen_range(0..6) {
+        let ts = match g.gen_range(0..8) {
             0 => now,
             1 => now - eff_age / 2,
             2 => now + g.gen_range(0..100), // published "in the future"
+            6 => {
+                // ages at the cliffs of narrower integer types: a multiple of 2^16 (2^31, 2^32) seconds
+                // plus something inside the allowed age looks fresh to an age kept in too few bits
+                let base: i64 = [65_536i64, 2 * 65_536, 3 * 65_536, 1000 * 65_536, 1 << 31, 1 << 32, (1 << 32) + 65_536][g.gen_range(0..7)];
+                let off = if g.gen_bool(0.8) { g.gen_range(0..=eff_age.max(1)) } else { -1 };
+                r.count("C09.ages_at_integer_width_cliffs");
+                now - (base + off)
+            }
+            7 => [0i64, 1, now - 1_000_000_000, now - 86_400, now - 7 * 86_400][g.gen_range(0..5)],
             _ => now - eff_age + age_off,
         };
         let fault = g.gen_range(0..10); // 0 wrong key 1 wrong owner 2 bad discriminator 3 partial verification, else none
